@@ -272,8 +272,11 @@ PROPS = {
     ),
     "C07": dict(
         proof_modules=["KsVerif.Proofs.C07"],
-        families=["redis.conv"],
-        rule="redis.conv: conversations from an independent RESP encoder (Go side, cross-checked byte for byte against "
+        families=["redis.conv", "redis.bigreply"],
+        rule="redis.bigreply: a reply array of n elements for n = 2^20 - 1, 2^20, 2^20 + 1, 2^20 + 3 (thorough: also 2^21 + 5 and more), "
+             "followed by a second command and its reply: two pairs, all n elements in the first reply, the second command answered "
+             "by its own reply (the conversation is built from n by the harness; the judge computes what must be reported from n); "
+             "redis.conv: conversations from an independent RESP encoder (Go side, cross-checked byte for byte against "
              "the Lean spec encoder): every command of the regenerated table with 0-3 arguments, then seeded random "
              "conversations of 1-6 exchanges with values holding CR, LF, CRLF, arbitrary bytes, empty/null bulk, every "
              "reply type incl. nested/empty arrays and redirections, random segmentations incl. across 8 KiB; "
